@@ -48,6 +48,11 @@ class Sym:
         text = src(e)
         if text in self.subst:
             return self.subst[text]
+        hook = getattr(self, "hook", None)
+        if hook is not None:
+            h = hook(e)
+            if h is not None:
+                return h
         if isinstance(e, ast.Constant) and isinstance(e.value, (int, float)) and not isinstance(e.value, bool):
             return sp.nsimplify(e.value)
         if isinstance(e, ast.Name):
